@@ -212,3 +212,101 @@ def rf12b(run):
                           'them: the second prototype reuses a trampoline that moves the value the wrong way'
                           % ('argument' if kind == 'arg' else 'result', bad[0], bad[1]), line=eqf.line)
     return n
+
+
+# ---------------------------------------------------------------------------------------------
+# RF182: the trampoline cache compares the size wherever the trampoline generator reads it
+# ---------------------------------------------------------------------------------------------
+
+def rf182(run):
+    from lib import enumflow as EF
+    rule = 'RF182'
+    run.rule(rule, 'interpreter FFI cache: _MIR_get_ff_call reads `arg_descs[i].size` in the branch taken for by-value blocks of every class '
+                   '(how many registers are loaded, how many words are copied).  For every argument type that reaches that branch — the '
+                   'branch conditions are evaluated over the type domain — the guard in front of the size comparison of ff_interface_eq, and '
+                   'of the size step of ff_interface_hash, is true.  A key that ignores the size of blk1 / blk2 blocks lets an 8-byte and a '
+                   '16-byte struct share one trampoline')
+    tu = run.tu('mir')
+    preds = EF.Predicates(tu)
+    ff = tu.func('_MIR_get_ff_call')
+    eqf = tu.func('ff_interface_eq')
+    hf = tu.func('ff_interface_hash')
+    run.functions_analysed.update({('mir', ff.name), ('mir', eqf.name), ('mir', hf.name)})
+    dom = _type_domain(tu)
+    # the if-chain on `type` whose last else reads .size
+    chain = None
+    for x in ff.walk():
+        if x['k'] == 'IfStmt' and 'type' in F.src(x['c'][0]):
+            p_ = ff.parent_of(x)
+            if p_ is not None and p_['k'] == 'IfStmt' and p_['c'][2] is x:
+                continue
+            elems, n_ = [], x
+            while n_ is not None and n_['k'] == 'IfStmt':
+                elems.append((n_['c'][0], n_['c'][1]))
+                n_ = n_['c'][2]
+            elems.append((None, n_))
+
+            def reads_size(b_):
+                return b_ is not None and any(y['k'] == 'MemberExpr' and y['n'] == 'size' for y in F.walk(b_))
+            ks = [k for k, (c_, b_) in enumerate(elems) if reads_size(b_)]
+            if len(ks) == 1 and len(elems) >= 3:
+                chain = (elems, ks[0])
+                break
+    if chain is None:
+        raise F.AnalysisBroken('_MIR_get_ff_call: the branch that reads the block size was not found')
+    elems, k = chain
+    sized = []
+    for nme, v in dom:
+        vals = [preds.eval(c, {'type': v}, frozenset()) for c, b_ in elems[:k + 1] if c is not None]
+        if any(r is None for r in vals):
+            raise F.AnalysisBroken('_MIR_get_ff_call: branch conditions not evaluable for %s' % nme)
+        earlier = vals[:k]
+        own = vals[k] if elems[k][0] is not None else True
+        if not any(earlier) and own:
+            sized.append((nme, v))
+    if len(sized) < 3:
+        raise F.AnalysisBroken('_MIR_get_ff_call: only %d types reach the block branch' % len(sized))
+
+    def guard_of(g, what):
+        for x in g.walk():
+            if x['k'] == 'IfStmt':
+                c = F.strip(x['c'][0])
+                body_reads = any(y['k'] == 'MemberExpr' and y['n'] == 'size' for y in F.walk(x['c'][1]))
+                cond_reads = any(y['k'] == 'MemberExpr' and y['n'] == 'size' for y in F.walk(c))
+                if not (body_reads or cond_reads):
+                    continue
+                # the part of the condition that looks at the type only
+                parts = []
+
+                def conj(e):
+                    e = F.strip(e)
+                    if e['k'] == 'BinaryOperator' and e['op'] == '&&':
+                        conj(e['c'][0])
+                        conj(e['c'][1])
+                    else:
+                        parts.append(e)
+                conj(c)
+                tparts = [p_ for p_ in parts if not any(y['k'] == 'MemberExpr' and y['n'] == 'size' for y in F.walk(p_))]
+                return x, tparts
+        raise F.AnalysisBroken('%s: the %s of the size was not found' % (g.name, what))
+    n = 0
+    for g, what in ((eqf, 'comparison'), (hf, 'hash step')):
+        site, tparts = guard_of(g, what)
+        for nme, v in sized:
+            env = {}
+            for p_ in tparts:
+                for y in F.walk(p_):
+                    if y['k'] == 'MemberExpr' and y['n'] == 'type':
+                        env[F.src(y)] = v
+            vals = [preds.eval(p_, env, frozenset()) for p_ in tparts]
+            if any(r is None for r in vals):
+                raise F.AnalysisBroken('%s: the guard of the size %s is not evaluable for %s' % (g.name, what, nme))
+            ok = all(vals)
+            n += 1
+            run.ob(rule, (g.name, nme), ok, {'function': g.name, 'argument type': nme, 'size takes part in the key': ok})
+            if not ok:
+                run.violation(rule, g, 'size of %s arguments not in the key' % nme, '%s leaves the size of a %s argument out of the cache key, but '
+                              '_MIR_get_ff_call generates different code for different sizes of such a block (one or two registers loaded, '
+                              'words copied): two prototypes that differ only in the struct size share a trampoline, and the callee reached '
+                              'second gets its arguments in the wrong registers' % (g.name, nme), line=site['l'])
+    return n
